@@ -41,18 +41,19 @@ type Letter struct {
 
 // SeqProfile is a sequential history exploration (seqx).
 type SeqProfile struct {
-	Name    string
-	Mon     harness.Monitors
-	CBMask  int
-	Keys    [][]byte
-	NoFile  bool
-	Depth   int
-	Init    func(w *harness.World)
-	Letters func(w *harness.World) []Letter
-	Finish  func(w *harness.World) // nil = StandardFinish
-	// NonTrivial decides whether a history counts as non-trivial (default: it
-	// contains at least one mutation and one other letter).
+	Name      string
+	Mon       harness.Monitors
+	CBMask    int
+	Keys      [][]byte
+	NoFile    bool
+	Depth     int
+	Init      func(w *harness.World)
+	Letters   func(w *harness.World) []Letter
+	Finish    func(w *harness.World) // nil = StandardFinish
 	StepLimit int64
+	// MapOrders: explore both iteration orders of the library's string-keyed
+	// maps (profiles with several collections).
+	MapOrders bool
 }
 
 // StandardFinish runs the end-of-replay oracles selected by the monitors.
@@ -133,6 +134,10 @@ func (sp *SeqProfile) Exec() explore.Exec {
 		var w *harness.World
 		var stateHash uint64
 		res := harness.RunExec(c, false, sp.StepLimit, func() {
+			if sp.MapOrders {
+				// the choice is consumed on the pristine build too (same choice sequence)
+				harness.SetMapOrderDesc(harness.Choose(2, harness.ClassOp) == 1)
+			}
 			w = harness.NewWorld(sp.Mon, sp.CBMask, sp.Keys, sp.NoFile)
 			if sp.Init != nil {
 				sp.Init(w)
